@@ -25,18 +25,20 @@ ASSUMPTIONS = ["RNTABLE in refs/ref_hop.py and c/drv_rfch.c is TS 45.002 table 6
                "firmware compiled for x86-64 by clang with ASan/UBSan"]
 
 
-def build(ctx):
+def build(ctx, uchar=False):
+    """uchar: plain 'char' unsigned as on the firmware's real target (ARM ABI); the enumeration runs both builds"""
     b = ctx.build
-    inc = cbuild.FW_INC + ["-I", os.path.join(cbuild.CSHIM, "fw/cfgdir/a/b")]
+    sfx = "_uc" if uchar else ""
+    inc = cbuild.FW_INC + ["-I", os.path.join(cbuild.CSHIM, "fw/cfgdir/a/b")] + (["-funsigned-char"] if uchar else [])
     objs = [
-        cbuild.compile_obj(os.path.join(REPO, "src/target/firmware/layer1/rfch.c"), os.path.join(b, "rfch.o"), inc),
-        cbuild.compile_obj(os.path.join(REPO, "src/shared/libosmocore/src/gsm/gsm_utils.c"), os.path.join(b, "gsm_utils.o"), inc),
-        cbuild.compile_obj(os.path.join(VERIF, "c", "drv_rfch.c"), os.path.join(b, "drv.o"), inc),
+        cbuild.compile_obj(os.path.join(REPO, "src/target/firmware/layer1/rfch.c"), os.path.join(b, "rfch%s.o" % sfx), inc),
+        cbuild.compile_obj(os.path.join(REPO, "src/shared/libosmocore/src/gsm/gsm_utils.c"), os.path.join(b, "gsm_utils%s.o" % sfx), inc),
+        cbuild.compile_obj(os.path.join(VERIF, "c", "drv_rfch.c"), os.path.join(b, "drv%s.o" % sfx), inc),
     ]
-    stubs = os.path.join(b, "stubs.c")
+    stubs = os.path.join(b, "stubs%s.c" % sfx)
     cbuild.weak_stubs(objs, stubs, defined_elsewhere=["l1s"])
-    objs.append(cbuild.compile_obj(stubs, os.path.join(b, "stubs.o"), [], sanitize=False))
-    return cbuild.link(objs, os.path.join(b, "drv_rfch"))
+    objs.append(cbuild.compile_obj(stubs, os.path.join(b, "stubs%s.o" % sfx), [], sanitize=False))
+    return cbuild.link(objs, os.path.join(b, "drv_rfch" + sfx))
 
 
 def run_drv(exe, args):
@@ -46,7 +48,18 @@ def run_drv(exe, args):
 
 
 def fw_sweep(ctx, rec):
-    exe = build(ctx)
+    fails = fw_sweep_variant(ctx, rec, False)
+    have = set(f.sig for f in fails)
+    for f in fw_sweep_variant(ctx, rec, True):
+        if f.sig not in have:
+            f.sig += ":unsigned-char-build"
+            f.case = dict(f.case, unsigned_char=True)
+            fails.append(f)
+    return fails
+
+
+def fw_sweep_variant(ctx, rec, uchar):
+    exe = build(ctx, uchar)
     jobs = []
     HY = 2715648
     if ctx.tier == "thorough":
@@ -258,7 +271,7 @@ def hyp_oracle(case):
 
 
 def fw_replay(case):
-    exe = build(Ctx("C07", "quick", 1))
+    exe = build(Ctx("C07", "quick", 1), bool(case.get("unsigned_char")))
     r = run_drv(exe, case["args"])
     for l in r.stdout.splitlines():
         if l.startswith("MISMATCH"):
